@@ -1,10 +1,174 @@
+import TinsModel.Checksum.Dissect
+import TinsModel.Checksum.Serialize
 import Driver.Util
-/- line-protocol driver for property C05 (stub until the area is built) -/
+/- line-protocol driver for property C05: checksum helpers, CRC, packets (model mode and spec/oracle mode) -/
 namespace Driver.C05
-open Driver
+open Driver Tins.Ck
 
-def step (st : Unit) (_line : String) : Unit × String := (st, "unimplemented")
-def specStep (st : Unit) (_line : String) : Unit × String := (st, "unimplemented")
+def hexOr (s : String) : Option Bytes := if s == "" then some [] else parseHex s
+
+def typedList (s : String) : Option (List (Nat × Bytes)) :=
+  if s == "-" then some [] else
+  (s.splitOn ",").mapM (fun item => match item.splitOn "." with
+    | [t, h] => do let t ← t.toNat?; let d ← hexOr h; pure (t, d)
+    | _ => none)
+
+def extList (s : String) : Option (List (Nat × Nat × Bytes)) :=
+  if s == "-" then some [] else
+  (s.splitOn ",").mapM (fun item => match item.splitOn "." with
+    | [c, t, h] => do let c ← c.toNat?; let t ← t.toNat?; let d ← hexOr h; pure (c, t, d)
+    | _ => none)
+
+def nat (s : String) : Option Nat := s.toNat?
+
+def parseLayer (w : List String) : Option Layer :=
+  match w with
+  | ["eth", d, s, t] => do pure (.eth (← parseHex d) (← parseHex s) (← nat t))
+  | ["dot1q", p, c, i, t, pad] => do pure (.dot1q (← nat p) (← nat c) (← nat i) (← nat t) ((← nat pad) != 0))
+  | ["ip", tos, id, fl, fo, ttl, pr, s, d, o] => do
+    pure (.ip (← nat tos) (← nat id) (← nat fl) (← nat fo) (← nat ttl) (← nat pr) (← parseHex s) (← parseHex d) (← typedList o))
+  | ["ip6", tc, fl, hop, nh, s, d, e] => do
+    pure (.ip6 (← nat tc) (← nat fl) (← nat hop) (← nat nh) (← parseHex s) (← parseHex d) (← typedList e))
+  | ["tcp", sp, dp, sq, ak, fl, wn, ur, o] => do
+    pure (.tcp (← nat sp) (← nat dp) (← nat sq) (← nat ak) (← nat fl) (← nat wn) (← nat ur) (← typedList o))
+  | ["udp", sp, dp] => do pure (.udp (← nat sp) (← nat dp))
+  | ["icmp", t, c, id, sq, a, b, cc, lf, e] => do
+    pure (.icmp (← nat t) (← nat c) (← nat id) (← nat sq) (← nat a) (← nat b) (← nat cc) ((← nat lf) != 0) (← extList e))
+  | ["icmp6", t, c, id, sq, lf, e] => do
+    pure (.icmp6 (← nat t) (← nat c) (← nat id) (← nat sq) ((← nat lf) != 0) (← extList e))
+  | ["raw", h] => do pure (.raw (← parseHex h))
+  | ["pppoe", c, s, p, t] => do pure (.pppoe (← nat c) (← nat s) (← nat p) (← typedList t))
+  | ["mpls", l, e, b, t] => do pure (.mpls (← nat l) (← nat e) (← nat b) (← nat t))
+  | ["dot3", d, s] => do pure (.dot3 (← parseHex d) (← parseHex s))
+  | ["snap", c, o, t] => do pure (.snap (← nat c) (← nat o) (← nat t))
+  | ["llc", d, s] => do pure (.llc (← nat d) (← nat s))
+  | ["loop", f] => do pure (.loop (← nat f))
+  | ["sll", p, lt, ll, a, pr] => do pure (.sll (← nat p) (← nat lt) (← nat ll) (← parseHex a) (← nat pr))
+  | ["ah", spi, sq, icv, nh] => do pure (.ah (← nat spi) (← nat sq) (← parseHex icv) (← nat nh))
+  | ["esp", spi, sq] => do pure (.esp (← nat spi) (← nat sq))
+  | ["radiotap", f] => do pure (.radiotap ((← nat f) != 0))
+  | ["eapol", kl, k] => do pure (.eapol (← nat kl) (← parseHex k))
+  | _ => none
+
+def splitLayers (ws : List String) : List (List String) :=
+  let (cur, acc) := ws.foldl (fun (cur, acc) w => if w == "|" then ([], acc ++ [cur]) else (cur ++ [w], acc)) ([], [])
+  acc ++ [cur]
+
+def parseStack (ws : List String) : Option (List Layer) := (splitLayers ws).mapM parseLayer
+
+/-- `L=kind:hdr:trl;...` as printed by the harness -/
+def parseReported (s : String) : Option (List Layer) :=
+  (s.splitOn ";").mapM (fun item => match item.splitOn ":" with
+    | [k, h, t] => do pure (.opaque k (← nat h) (← nat t))
+    | _ => none)
+
+def showLayers (ls : List (String × Nat × Nat)) : String :=
+  joinWith ";" (ls.map (fun (k, h, t) => s!"{k}:{h}:{t}"))
+
+/-- model mode -/
+def step (st : Unit) (line : String) : Unit × String :=
+  match words line with
+  | ["sum", h] => match parseHex h with
+    | some b => (st, s!"sum={sumRange b} do={doChecksum b}")
+    | none => (st, "bad-op")
+  | ["crc", h] => match parseHex h with
+    | some b => (st, s!"crc={(crc32 b).toNat}")
+    | none => (st, "bad-op")
+  | [op, s, d, len, flag] =>
+    if op == "ph4" || op == "ph6" then
+      match parseHex s, parseHex d, len.toNat?, flag.toNat? with
+      | some s, some d, some len, some flag => (st, s!"ph={pseudoSum s d len flag}")
+      | _, _, _, _ => (st, "bad-op")
+    else (st, "bad-op")
+  | "pkt" :: rest => match parseStack rest with
+    | some ls => match Ser.serializeTop ls with
+      | .ok bytes sizes => (st, s!"ok bytes={toHex bytes} L={showLayers sizes}")
+      | .throw e => (st, s!"throw {e}")
+      | .unmodelled => (st, "unmodelled")
+    | none => (st, "bad-op")
+  | _ => (st, "bad-op")
+
+def kv (ws : List String) (key : String) : Option String :=
+  ws.findSome? (fun w => if w.startsWith (key ++ "=") then some ((w.drop (key.length + 1)).toString) else none)
+
+/-- layers libtins reports for a *built* packet must be the layers that were built, in order -/
+def kindsAgree (built reported : List Layer) : Bool :=
+  built.map Layer.kind == reported.map Layer.kind
+
+/-- reported layers of a parsed packet → what the dissector needs (802.1Q padding / FCS presence from the trailer size) -/
+def ofReported : Layer → Layer
+  | .opaque "eth" _ _ => .eth [] [] 0
+  | .opaque "dot1q" _ t => .dot1q 0 0 0 0 (t != 0)
+  | .opaque "ip" _ _ => .ip 0 0 0 0 0 0 [] [] []
+  | .opaque "tcp" _ _ => .tcp 0 0 0 0 0 0 0 []
+  | .opaque "udp" _ _ => .udp 0 0
+  | .opaque "dot3" _ _ => .dot3 [] []
+  | .opaque "loop" _ _ => .loop 0
+  | .opaque "sll" _ _ => .sll 0 0 0 [] 0
+  | .opaque "esp" _ _ => .esp 0 0
+  | .opaque "mpls" _ _ => .mpls 0 0 0 0
+  | .opaque "radiotap" _ t => .radiotap (t != 0)
+  | .opaque "icmp" _ t => .icmp 0 0 0 0 0 0 0 false (if t != 0 then [(0, 0, [])] else [])
+  | .opaque "icmp6" _ t => .icmp6 0 0 0 0 false (if t != 0 then [(0, 0, [])] else [])
+  | .opaque "ip6" h _ => .ip6 0 0 0 h [] [] []
+  | l => l
+
+/-- spec mode: each input line is `<op> ||| <implementation output>` -/
+def specStep (st : Unit) (line : String) : Unit × String :=
+  match line.splitOn " ||| " with
+  | [op, out] =>
+    let ow := words out
+    match words op with
+    | ["sum", h] => match parseHex h, (kv ow "sum").bind nat, (kv ow "do").bind nat with
+      | some b, some s, some d =>
+        if b.length ≥ 131072 then (st, "unspecified")
+        else if bswap16 s != Spec.ocSum b then (st, s!"violates sum_range rfc1071={Spec.ocSum b} got-swapped={bswap16 s}")
+        else if fold32 d != Spec.ocSum b then (st, s!"violates do_checksum rfc1071={Spec.ocSum b}")
+        else (st, "ok")
+      | _, _, _ => (st, "violates unparsable-output")
+    | ["crc", h] => match parseHex h, (kv ow "crc").bind nat with
+      | some b, some c =>
+        if c == (Spec.crcBitwise b).toNat then (st, "ok") else (st, s!"violates crc32 ieee={(Spec.crcBitwise b).toNat}")
+      | _, _ => (st, "violates unparsable-output")
+    | [phop, s, d, len, flag] =>
+      match parseHex s, parseHex d, len.toNat?, flag.toNat?, (kv ow "ph").bind nat with
+      | some s, some d, some len, some flag, some ph =>
+        if len > 65535 || flag > 255 || ph ≥ 4294967296 then (st, "unspecified") else
+        let want := if phop == "ph4" then Spec.ocSum (Spec.pseudo4 s d flag len) else Spec.ocSum (Spec.pseudo6 s d flag len)
+        if bswap16 (fold32 ph) == want then (st, "ok") else (st, s!"violates pseudo-header rfc={want}")
+      | _, _, _, _, _ => (st, "violates unparsable-output")
+    | "pkt" :: rest =>
+      if ow.head? == some "throw" then (st, "unspecified") else
+      match parseStack rest, (kv ow "bytes").bind parseHex, (kv ow "L").bind parseReported with
+      | some ls, some bytes, some rep =>
+        if bytes.length > 65535 then (st, "unspecified")
+        else if !kindsAgree ls rep then (st, "violates layers-reported")
+        else match Dissect.check true ls bytes with
+          | .ok _ => (st, "ok")
+          | .error e => (st, s!"violates {e}")
+      | _, _, _ => (st, "violates unparsable-output")
+    | "pcap" :: _ =>
+      if ow.head? == some "throw" then (st, "unspecified") else
+      match kv ow "pf" with
+      | some pf =>
+        let items := if pf == "" then [] else pf.splitOn ","
+        let bad := items.filter (fun it => match it.splitOn ":" with
+          | [_, r, e] => r != e
+          | _ => true)
+        if bad.isEmpty then (st, "ok") else (st, s!"violates pcap-filter {joinWith "," bad}")
+      | none => (st, "violates unparsable-output")
+    | ["reser", _, _] =>
+      if ow.head? == some "throw" then (st, "unspecified") else
+      match (kv ow "bytes").bind parseHex, (kv ow "L").bind parseReported with
+      | some bytes, some rep =>
+        if bytes.length > 65535 then (st, "unspecified")
+        else match Dissect.check false (rep.map ofReported) bytes with
+          | .ok _ => (st, "ok")
+          | .error e => (st, s!"violates {e}")
+      | _, _ => (st, "violates unparsable-output")
+    | _ => (st, "bad-op")
+  | _ => (st, "bad-line")
+
 def initModel : Unit := ()
 def initSpec : Unit := ()
 
